@@ -35,6 +35,8 @@ def plan(tier, seed):
     n = 14 if tier == 'quick' else 56
     for i in range(n):
         specs.append({'kind': 'programs', 'count': 130 if tier == 'quick' else 800, 'cli': i < 2})
+    for i in range(2 if tier == 'quick' else 6):
+        specs.append({'kind': 'big', 'count': 2, 'cli': i == 0})
     return specs
 
 
@@ -249,6 +251,32 @@ def _run_shard(spec, ctx):
                 ctx.feature('source_heads')
         return
     cli_dir = tempfile.mkdtemp(prefix='vf-c06-') if spec.get('cli') else None
+    if spec['kind'] == 'big':
+        # cart-sized sources: hundreds of statements in wild layouts, and one-line data tables of 10-40 kB
+        try:
+            done = 0
+            for i in range(spec['count'] * 4):
+                if done >= spec['count']:
+                    break
+                p = progen.gen_program(rng, {'depth': 2, 'max_stmts': 2, 'top_stmts': (400, 250)[i % 2], 'goto': False,
+                                             'exotic_numbers': True, 'exotic_strings': True, 'multiline_strings': False})
+                src = layout.render(p, rng, style=('wild', 'normal')[i % 2])
+                if src is None:
+                    ctx.monitor('generator_rejects')
+                    continue
+                done += 1
+                ctx.feature('big_programs')
+                ctx.monitor('big_program_chars', len(src))
+                check_source(ctx, src, 'program', cli_dir if i == 0 else None)
+                items = [rng.choice((b'%d' % rng.randrange(10 ** 6), b'"%s"' % bytes(rng.choice(b'abc \x8e\x97') for _ in range(rng.randint(0, 9))),
+                                     b'0x%x' % rng.randrange(65536), b'k%d' % rng.randrange(999))) for _ in range(rng.choice((1500, 5000)))]
+                line = b'd={' + b','.join(items) + b'}' + (b'\n' if i % 2 else b'')
+                ctx.feature('long_line_sources')
+                check_source(ctx, line, 'program', cli_dir if i == 1 else None)
+        finally:
+            if cli_dir:
+                shutil.rmtree(cli_dir, ignore_errors=True)
+        return
     try:
         for i in range(spec['count']):
             p = progen.gen_program(rng, {'depth': rng.choice((1, 2, 2, 3)), 'max_stmts': 4, 'exotic_numbers': True,
@@ -289,6 +317,8 @@ def gates(m, tier):
     if f.get('source_heads', 0) < 500 or f.get('object_filled_in_two_steps', 0) < 40 or mon.get('object_echoes_compared', 0) < 500:
         missed.append('source heads %d, objects filled in two steps %d, object echoes %d' % (
             f.get('source_heads', 0), f.get('object_filled_in_two_steps', 0), mon.get('object_echoes_compared', 0)))
+    if f.get('big_programs', 0) < 3 or f.get('long_line_sources', 0) < 3:
+        missed.append('cart-sized programs %d, long one-line sources %d' % (f.get('big_programs', 0), f.get('long_line_sources', 0)))
     if mon.get('cli_copies_compared', 0) < 20:
         missed.append('CLI copies compared: %d' % mon.get('cli_copies_compared', 0))
     return missed
